@@ -393,20 +393,24 @@ theorem removeUpToAck_ok (s : Segments) (now ackNr : Nat) (sack : Option Sack) (
       shape s' = (shape s).drop k ∧ k ≤ s.segs.length ∧ r.ackedSegmentsCount = k ∧
       r.ackedBytes = sizes (s.segs.take k) ∧ s'.removedOffset = s.removedOffset + r.ackedBytes ∧
       s'.sndUna = advance s.sndUna k ∧ s'.sndUna < 65536 ∧ s'.offset = s.offset ∧
-      (∀ g, s'.segs.head? = some g → g.isDelivered = false) := by
+      (∀ g, s'.segs.head? = some g → g.isDelivered = false) ∧
+      (seqSub ackNr s.sndUna ≥ 0 → min ((seqSub ackNr s.sndUna).toNat + 1) s.segs.length ≤ k) := by
   rw [removeUpToAck_eq]
   have h0 : MidInv s ({} : AckAcc).payloadSize := ⟨h.bytes, by simpa using h.contig, by have := h.ending; simpa using this⟩
   -- phase 1
   have hp1 : ∃ s1 a1 k1, (if seqSub ackNr s.sndUna ≥ 0 then drainFront now (min ((seqSub ackNr s.sndUna).toNat + 1) s.segs.length) s {} else some (s, {})) = some (s1, a1) ∧
       MidInv s1 a1.payloadSize ∧ s1.segs = s.segs.drop k1 ∧ k1 ≤ s.segs.length ∧ a1.removed = k1 ∧
       a1.payloadSize = sizes (s.segs.take k1) ∧ s1.sndUna = advance s.sndUna k1 ∧ s1.sndUna < 65536 ∧
-      s1.removedOffset = s.removedOffset ∧ s1.offset = s.offset := by
+      s1.removedOffset = s.removedOffset ∧ s1.offset = s.offset ∧
+      (seqSub ackNr s.sndUna ≥ 0 → min ((seqSub ackNr s.sndUna).toNat + 1) s.segs.length ≤ k1) := by
     split
     · obtain ⟨s1, a1, he, hm, hsg, hrm, hps, hun, hul, hro, hof, _⟩ :=
         drainFront_ok now (min ((seqSub ackNr s.sndUna).toNat + 1) s.segs.length) s {} h0 hu
-      refine ⟨s1, a1, _, he, hm, hsg, Nat.min_le_right _ _, by simpa using hrm, by simpa using hps, hun, hul, hro, hof⟩
-    · exact ⟨s, {}, 0, rfl, h0, by simp, by omega, rfl, by simp [sizes], by unfold advance; simp; omega, hu, rfl, rfl⟩
-  obtain ⟨s1, a1, k1, he1, hm1, hsg1, hk1, hr1, hps1, hun1, hul1, hro1, hof1⟩ := hp1
+      refine ⟨s1, a1, _, he, hm, hsg, Nat.min_le_right _ _, by simpa using hrm, by simpa using hps, hun, hul, hro, hof, fun _ => ?_⟩
+      omega
+    · rename_i hneg
+      exact ⟨s, {}, 0, rfl, h0, by simp, by omega, rfl, by simp [sizes], by unfold advance; simp; omega, hu, rfl, rfl, fun hge => absurd hge hneg⟩
+  obtain ⟨s1, a1, k1, he1, hm1, hsg1, hk1, hr1, hps1, hun1, hul1, hro1, hof1, hprog1⟩ := hp1
   rw [he1]
   simp only
   -- phase 2
@@ -423,7 +427,7 @@ theorem removeUpToAck_ok (s : Segments) (now ackNr : Nat) (sack : Option Sack) (
   have hsz : sizes (s2.segs.take k3) = sizes ((s.segs.drop k1).take k3) := by
     apply sizes_congr
     rw [← hsg1, List.map_take, List.map_take, hkey2]
-  refine ⟨_, _, k1 + k3, rfl, ?_, ?_, ?_, ?_, ?_, ?_, ?_, ?_, ?_, hfr3⟩
+  refine ⟨_, _, k1 + k3, rfl, ?_, ?_, ?_, ?_, ?_, ?_, ?_, ?_, ?_, hfr3, fun hge => Nat.le_trans (hprog1 hge) (Nat.le_add_right _ _)⟩
   · refine ⟨hm3.bytes, ?_, ?_⟩
     · simp only; have := hm3.contig; rw [hro3] at this ⊢; exact this
     · simp only; have := hm3.ending; omega
